@@ -36,13 +36,15 @@ Record pst : Type := mkPst {
   fcls : list frec;                           (* Function.list_of_class_constraints / list_of_class_psd *)
   pcls : list (list nat);                     (* BlockPartition.list_of_constraints *)
   objective : option nat;                     (* PEP.objective: counter of the leaf expression *)
-  wsent : list nat                            (* wrapper._list_of_constraints_sent_to_solver, latest solve *)
+  wsent : list nat;                           (* wrapper._list_of_constraints_sent_to_solver, latest solve *)
+  fown : list (list nat * list nat)           (* per function of Function.list_of_functions (leaf AND composite,
+                                                 creation order): its own list_of_constraints / list_of_psd *)
 }.
 
-Definition pst0 : pst := mkPst est0 [] [] [] [] [] [] [] None [].
+Definition pst0 : pst := mkPst est0 [] [] [] [] [] [] [] None [] [].
 
 Definition with_es (s : pst) (e : est) : pst :=
-  mkPst e (metrics s) (conds s) (psds s) (ftem s) (ptem s) (fcls s) (pcls s) (objective s) (wsent s).
+  mkPst e (metrics s) (conds s) (psds s) (ftem s) (ptem s) (fcls s) (pcls s) (objective s) (wsent s) (fown s).
 
 (** ** creation of fresh objects from generated dictionaries *)
 (* [expr <= 0] / [expr == 0]: a new derived Expression, then the Constraint holding it *)
@@ -131,6 +133,13 @@ Fixpoint assign_duals (st : est) (rs : list nat) (ds : list val) : est :=
   | _, _ => st
   end.
 
+(** "functions with own items" (pep.py 409-410, 497-525): a function -- leaf or composite -- enters the loop
+    iff it has an own constraint OR an own LMI; its own constraints are sent first, then its own LMIs *)
+Definition has_own (f : list nat * list nat) : bool :=
+  negb (match fst f with [] => true | _ => false end) || negb (match snd f with [] => true | _ => false end).
+Definition own_refs (s : pst) : list nat :=
+  flat_map (fun f => fst f ++ snd f) (filter has_own (fown s)).
+
 (** everything up to [wrapper.solve()]: fresh objective leaf, class constraints and partition
     constraints regenerated, fresh tracking lists filled in the fixed order of the pipeline *)
 Definition prepare (s : pst) : pst :=
@@ -141,8 +150,9 @@ Definition prepare (s : pst) : pst :=
   let '(st3, ms) := mk_conss st2 (map (metric_row st2 o) (metrics s)) in
   let sent := ms ++ conds s ++ psds s
               ++ flat_map (fun f => f_class_cons f ++ f_class_psd f) fs
+              ++ own_refs s
               ++ List.concat ps in
-  mkPst st3 (metrics s) (conds s) (psds s) (ftem s) (ptem s) fs ps (Some o) sent.
+  mkPst st3 (metrics s) (conds s) (psds s) (ftem s) (ptem s) fs ps (Some o) sent (fown s).
 
 (** after a finite answer: duals of the SENT items, leaf values, then check_feasibility evaluates
     (hence caches) every sent LMI, every sent inequality, every sent equality, in that order *)
@@ -160,6 +170,12 @@ Definition solve (s : pst) (a : option solution) : pst :=
   | None => s1                                   (* if wc_value is None: return wc_value *)
   | Some sol => finish s1 sol
   end.
+
+(** with a dimension-reduction heuristic (pep.py 573-626): [assign_dual_values] runs on the FIRST answer, before
+    the heuristic; [G_value, F_value] are those of the LAST re-solve *)
+Definition last_sol (first : solution) (rest : list solution) : solution := last rest first.
+Definition answer_of (first : solution) (rest : list solution) : solution :=
+  mkSol (sP (last_sol first rest)) (sF (last_sol first rest)) (sDual first).
 
 (** what the wrapper received, item by item *)
 Definition dump_sent_item (st : est) (r : nat) : D :=
@@ -182,7 +198,12 @@ Inductive op : Type :=
 | MkPoint (d : pdict) | MkExpr (d : edict) | MkCons (e : eh) (s : sense) | MkLmi (m : list (list eh))
 | AddCond (r : nat) | DelCond (r : nat) | AddMetric (e : eh) | AddPsd (r : nat)
 | SetTemplates (f : list ftempl) (p : list (list edict))
+| DeclFun                                   (* a new Function object (declare_function, f + g, c * f, ...) *)
+| FAddCons (f : nat) (r : nat)              (* Function.add_constraint *)
+| FAddPsd (f : nat) (r : nat)               (* Function.add_psd_matrix (the PSDMatrix is object r) *)
 | Solve (a : option solution)
+| SolveH (first : solution) (rest : list solution)   (* a finite solve followed by the re-solves of a
+                                                        dimension-reduction heuristic *)
 | Eval (r : nat) | EvalLeafP (i : nat) | EvalLeafE (i : nat) | EvalDual (r : nat).
 
 Definition has_cache (st : est) (r : nat) : bool :=
@@ -235,6 +256,8 @@ Definition valid_op (s : pst) (o : op) : bool :=
   | AddMetric e => valid_ehb st e && wf_edictb st (dict_of_eh st e)
   | AddPsd r => is_lmi st r && item_okb st r
   | SetTemplates f p => forallb (wf_ftemplb st) f && forallb (fun q => forallb (wf_edictb st) q) p
+  | FAddCons f r => Nat.ltb f (length (fown s)) && (is_cons st r && item_okb st r)
+  | FAddPsd f r => Nat.ltb f (length (fown s)) && (is_lmi st r && item_okb st r)
   | _ => true
   end.
 
@@ -247,16 +270,23 @@ Definition step_valid (s : pst) (o : op) : pst * D :=
   | MkCons e sn => (with_es s (new_obj (es s) (KCons e sn)), DL [])
   | MkLmi m => (with_es s (new_obj (es s) (KLmi m)), DL [])
   | AddCond r => (mkPst (es s) (metrics s) (conds s ++ [r]) (psds s) (ftem s) (ptem s) (fcls s) (pcls s)
-                        (objective s) (wsent s), DL [])
+                        (objective s) (wsent s) (fown s), DL [])
   | DelCond r => (mkPst (es s) (metrics s) (filter (fun x => negb (Nat.eqb x r)) (conds s)) (psds s) (ftem s)
-                        (ptem s) (fcls s) (pcls s) (objective s) (wsent s), DL [])
+                        (ptem s) (fcls s) (pcls s) (objective s) (wsent s) (fown s), DL [])
   | AddMetric e => (mkPst (es s) (metrics s ++ [e]) (conds s) (psds s) (ftem s) (ptem s) (fcls s) (pcls s)
-                          (objective s) (wsent s), DL [])
+                          (objective s) (wsent s) (fown s), DL [])
   | AddPsd r => (mkPst (es s) (metrics s) (conds s) (psds s ++ [r]) (ftem s) (ptem s) (fcls s) (pcls s)
-                       (objective s) (wsent s), DL [])
+                       (objective s) (wsent s) (fown s), DL [])
   | SetTemplates f p => (mkPst (es s) (metrics s) (conds s) (psds s) f p (fcls s) (pcls s)
-                               (objective s) (wsent s), DL [])
+                               (objective s) (wsent s) (fown s), DL [])
+  | DeclFun => (mkPst (es s) (metrics s) (conds s) (psds s) (ftem s) (ptem s) (fcls s) (pcls s)
+                      (objective s) (wsent s) (fown s ++ [([], [])]), DL [])
+  | FAddCons f r => (mkPst (es s) (metrics s) (conds s) (psds s) (ftem s) (ptem s) (fcls s) (pcls s)
+                           (objective s) (wsent s) (upd_nth (fun o => (fst o ++ [r], snd o)) f (fown s)), DL [])
+  | FAddPsd f r => (mkPst (es s) (metrics s) (conds s) (psds s) (ftem s) (ptem s) (fcls s) (pcls s)
+                          (objective s) (wsent s) (upd_nth (fun o => (fst o, snd o ++ [r])) f (fown s)), DL [])
   | Solve a => let s1 := solve s a in (s1, dump_solve s1)
+  | SolveH first rest => let s1 := solve s (Some (answer_of first rest)) in (s1, dump_solve s1)
   | Eval r => let '(st1, x) := eval_obj (es s) r in (with_es s st1, dump_eval (es s) st1 r x)
   | EvalLeafP i => (s, match leafP (es s) i with
                        | Ok v => dump_vec (es s) true v
